@@ -22,7 +22,18 @@ H_ENTRY(h_mpz_text) {
   H_END();
 }
 H_ENTRY(h_vtmf_card_text) {
-  VTMF_Card c, d; vfh_mpz(c.c_1, 0, H_VMAX); vfh_mpz(c.c_2, 0, H_VMAX);
+  VTMF_Card c, d;
+  // a slice may fix one component to a concrete (multi-digit) value: one symbolic text field per query is cheap, two are not
+#ifdef H_FIX1
+  mpz_set_si(c.c_1, H_FIX1);
+#else
+  vfh_mpz(c.c_1, 0, H_VMAX);
+#endif
+#ifdef H_FIX2
+  mpz_set_si(c.c_2, H_FIX2);
+#else
+  vfh_mpz(c.c_2, 0, H_VMAX);
+#endif
   mpz_set_ui(d.c_1, 77); mpz_set_ui(d.c_2, 99);                 // import into a used object
   std::stringstream s, s2; s << c;
   std::string t1 = s.str();
